@@ -141,6 +141,10 @@ type Root struct {
 	Step    int64    `json:"clock_step_ns,omitempty"` // clock step override; -1 = zero step
 	// DrawMenu overrides the menu of random draws
 	DrawMenu []float64 `json:"draw_menu,omitempty"`
+	// MsgURN is the URN incoming messages come from (default tel:+12065551212); Parent overrides the
+	// parent run summary of flow_action triggers
+	MsgURN string `json:"msg_urn,omitempty"`
+	Parent J      `json:"parent,omitempty"`
 	// Refreshed is the contact carried by "refresh:<text>" resume events
 	Refreshed J `json:"refreshed,omitempty"`
 	// FreshAssets rebuilds the SessionAssets (cold flow cache) for every execution instead of
@@ -210,6 +214,13 @@ func ParentSummary() J {
 	}
 }
 
+func (r *Root) msgURN() string {
+	if r.MsgURN != "" {
+		return r.MsgURN
+	}
+	return "tel:+12065551212"
+}
+
 // TriggerJSON renders the root's trigger.
 func (r *Root) TriggerJSON() J {
 	contact := r.Contact
@@ -248,10 +259,14 @@ func (r *Root) TriggerJSON() J {
 			text = "a"
 		}
 		t["type"] = "msg"
-		t["msg"] = J{"uuid": UUID("trigger-msg"), "urn": "tel:+12065551212", "channel": J{"uuid": ChanTel, "name": "Tel"}, "text": text}
+		t["msg"] = J{"uuid": UUID("trigger-msg"), "urn": r.msgURN(), "channel": J{"uuid": ChanTel, "name": "Tel"}, "text": text}
 	case "flow_action":
 		t["type"] = "flow_action"
-		t["run_summary"] = ParentSummary()
+		if r.Parent != nil {
+			t["run_summary"] = r.Parent
+		} else {
+			t["run_summary"] = ParentSummary()
+		}
 		t["history"] = J{"parent_uuid": UUID("parent-session"), "ancestors": 1, "ancestors_since_input": 1}
 	case "voice":
 		t["type"] = "manual"
@@ -356,8 +371,11 @@ func (x *Exec) Apply(st Step) error {
 		if err != nil {
 			return fmt.Errorf("refreshed contact: %w", err)
 		}
-		msg := flows.NewMsgIn(flows.MsgUUID(uuids.NewV4()), urns.URN("tel:+12065551212"), assets.NewChannelReference(assets.ChannelUUID(ChanTel), "Tel"), strings.TrimPrefix(st.Ev, "refresh:"), nil)
+		msg := flows.NewMsgIn(flows.MsgUUID(uuids.NewV4()), urns.URN(x.Root.msgURN()), assets.NewChannelReference(assets.ChannelUUID(ChanTel), "Tel"), strings.TrimPrefix(st.Ev, "refresh:"), nil)
 		res = resumes.NewMsg(nil, contact, msg)
+	} else if strings.HasPrefix(st.Ev, "msg:") && x.Root.MsgURN != "" {
+		msg := flows.NewMsgIn(flows.MsgUUID(uuids.NewV4()), urns.URN(x.Root.msgURN()), assets.NewChannelReference(assets.ChannelUUID(ChanTel), "Tel"), strings.TrimPrefix(st.Ev, "msg:"), nil)
+		res = resumes.NewMsg(nil, nil, msg)
 	} else {
 		res = MakeResume(st.Ev)
 	}
